@@ -131,6 +131,22 @@ def generate(tier, rng):
                 probe = net.frame_tcp(xs, xd, sp, 80, 1001 + len(half1), (ckx + 1) & 0xFFFFFFFF, 0x18, half2)
                 yield Script(Cfg(key=key), x + other + [probe], "mapped-twin")
                 yield Script(Cfg(key=key), x + other + [net.frame_tcp(ys, yd, sp, 80, 18, ack, 0x18, half2)], "mapped-twin:probe-on-twin")
+    # a flow that holds state -- half a request in the parser, or a prefix too short to be identified in the buffer --
+    # receives segments that are not accepted data (every control flag word, with and without payload, acknowledging the
+    # cookie or not), then completes: the answer must be the one it gets without them
+    for key in ((0, 0), (1, 2)):
+        for v6 in (False, True):
+            s, d = gens.addr_pair(v6)
+            for first, rest in ((b"GET /index.html HT", b"TP/1.1\r\nHost: a\r\n\r\n"), (b"GE", b"T / HTTP/1.0\r\n\r\n"),
+                                (b"\x00\x00\x00\x54\xff", gens.SMB1_NEG[5:])):
+                for fl in (0x02, 0x12, 0x04, 0x14, 0x11, 0x01, 0x10, 0x42, 0x0a, 0x06, 0x03):
+                    sp = rng.randrange(1024, 65536)
+                    x = gens.handshake(key, s, d, sp, 445, [first])
+                    ck = net.cookie(key, s, d, sp, 445)
+                    ctl = [net.frame_tcp(s, d, sp, 445, 5000, a, fl, pl) for a in ((ck + 1) & 0xFFFFFFFF, 0)
+                           for pl in ((b"", b"zz") if fl & 0x08 == 0 else (b"",))]
+                    probe = net.frame_tcp(s, d, sp, 445, 1001 + len(first), (ck + 1) & 0xFFFFFFFF, 0x18, rest)
+                    yield Script(Cfg(key=key), x + ctl + [probe], "control-between-halves %02x" % fl)
     p1, p2 = pressure_script(rng, (1, 2))
     yield p1
     yield p2
